@@ -96,7 +96,7 @@ func c03Build(g *gen.G, n int, invalid []bool, msg []byte, h hash.Hasher, H bls3
 			b.sigs[i] = s
 			b.kinds[i] = "shortSig"
 		case kind == 7:
-			b.pks[i] = identityKeys(g, blsKey{x: xs[i], pk: b.pks[i]})[g.Pick(label+"idk", 4)]
+			b.pks[i] = identityKeys(g, blsKey{x: xs[i], pk: b.pks[i]})[g.Pick(label+"idk", numIdentityKinds)]
 			b.exact[i] = nil
 			b.kinds[i] = "identityKey"
 			if g.Bool(label + "idkSig") {
@@ -218,7 +218,7 @@ func TestC03_StructuralPlusCancelling(t *testing.T) {
 				copy(sg, b.exact[i])
 				b.sigs[i], b.kinds[i] = sg, "shortSig"
 			case 1:
-				b.pks[i] = identityKeys(g, blsKey{x: big.NewInt(3), pk: b.pks[i]})[g.Pick("idk", 4)]
+				b.pks[i] = identityKeys(g, blsKey{x: big.NewInt(3), pk: b.pks[i]})[g.Pick("idk", numIdentityKinds)]
 				b.exact[i], b.kinds[i] = nil, "identityKey"
 				if g.Bool("idkSig") {
 					b.sigs[i] = bls381.G1Compress(bls381.G1Infinity())
